@@ -80,6 +80,8 @@ def model_skeletons() -> dict[str, dict]:
             "HolderA": obj({"req-e": ref("StrEnum"), "optE": ref("StrEnum"), "int.e": ref("IntEnum")}, ["req-e"]),
             "HolderB": obj({"inlineEnum": {"type": "string", "enum": ["x", "y"]}, "nullEnum": {"type": ["string", "null"], "enum": ["p", "q", None]}, "const-s": {"const": "fixed"}, "constI": {"const": 7}}, ["const-s"]),
             "HolderF": obj({"zero": {"const": 0}, "empty-s": {"const": ""}, "zeroF": {"const": 0.0}, "no": {"const": False}, "opt-null-zero": {"oneOf": [{"const": 0}, {"type": "null"}]}}, ["zero", "empty-s"], additionalProperties=False),
+            # two inline enums that share one generated class (same title, same values) but not their requiredness
+            "HolderG": obj({"billing-c": {"title": "Country", "type": "string", "enum": ["de", "fr"]}, "shippingC": {"title": "Country", "type": "string", "enum": ["de", "fr"]}, "thirdC": {"title": "Country", "type": "string", "enum": ["de", "fr"], "default": "fr"}}, ["billing-c"], additionalProperties=False),
             "Type": {"type": "string", "enum": ["t1", "t2"]},
             "Format": {"type": "integer", "enum": [1, 2]},
             "HolderE": obj({"the-type": ref("Type"), "fmt": ref("Format"), "type-list": arr(ref("Type"))}, additionalProperties=False),
@@ -108,6 +110,11 @@ def model_skeletons() -> dict[str, dict]:
             "UnionsA": obj({"int-or-str": {"oneOf": [INT, STR]}, "optIntOrStr": {"anyOf": [INT, STR]}, "typeList": {"type": ["integer", "string", "boolean"]}}, ["int-or-str"]),
             "UnionsB": obj({"pet": {"oneOf": [ref("Cat"), ref("Dog")]}, "optPet": {"oneOf": [ref("Cat"), ref("Dog"), {"type": "null"}]}}, ["pet"], additionalProperties=False),
             "UnionsC": obj({"pet-or-int": {"oneOf": [ref("Cat"), INT]}, "dateOrInt": {"anyOf": [DATE, INT]}}, additionalProperties=False),
+            # members told apart only by the *type* of a shared key (the earlier member's decoder must fail cleanly)
+            "ResV2": obj({"id": UUID, "label": STR}, ["id"], additionalProperties=False),
+            "ResV1": obj({"id": INT, "label": STR}, ["id"], additionalProperties=False),
+            "ResV0": obj({"id": DATE, "label": STR}, ["id"], additionalProperties=False),
+            "UnionsD": obj({"res": {"oneOf": [ref("ResV2"), ref("ResV0"), ref("ResV1")]}, "hist": arr({"oneOf": [ref("ResV2"), ref("ResV1")]})}, ["res"], additionalProperties=False),
             "UnionListsA": obj({"pets": arr({"oneOf": [ref("Cat"), ref("Dog")]})}, ["pets"], additionalProperties=False),
             "UnionListsB": obj({"list-or-int": {"oneOf": [arr(INT), INT]}, "optMixed": arr({"oneOf": [INT, STR]})}, additionalProperties=False),
         }
@@ -237,6 +244,11 @@ def endpoint_skeletons() -> dict[str, dict]:
                 "get": {"operationId": "overrideOtherLocation", "parameters": [param("ver", "query", STR, True)], "responses": {"204": {"description": "none"}}},
                 "post": {"operationId": "overrideSameLocation", "parameters": [param("ver", "header", INT, True)], "responses": {"204": {"description": "none"}}},
             },
+            # raw parameter names that also occur as literal path text / as prefix of another placeholder
+            "/types/{type}/userId/{userId}": {"get": {"operationId": "literalTwins", "parameters": [param("type", "path", STR), param("userId", "path", STR)], "responses": {"204": {"description": "none"}}}},
+            "/pfx/{userId}/{userIdKind}": {"get": {"operationId": "prefixTwins", "parameters": [param("userId", "path", STR), param("userIdKind", "path", STR)], "responses": {"204": {"description": "none"}}}},
+            # one enum class shared by an optional and a required parameter (same title, same values)
+            "/q/shared-enum": {"get": {"operationId": "sharedEnum", "parameters": [param("thenBy", "query", {"title": "Order", "type": "string", "enum": ["asc", "desc"]}), param("orderBy", "query", {"title": "Order", "type": "string", "enum": ["asc", "desc"]}, True)], "responses": {"204": {"description": "none"}}}},
             "/e/{color}/{level}": {
                 "put": {
                     "operationId": "enumPath",
